@@ -33,6 +33,26 @@ def suppress_logging():
         logging.disable(logging.NOTSET)
 
 
+@contextlib.contextmanager
+def preserve_logging_state():
+    """Restore the process-wide logging state after SUT execution.
+
+    The SUT may call ``logging.disable``, ``logging.basicConfig`` or change the level
+    and handlers of the root logger; none of this must survive the test case.
+
+    Yields:
+        Nothing; restores ``logging.disable`` level, root level and root handlers on exit.
+    """
+    root = logging.getLogger()
+    disable, level, handlers = root.manager.disable, root.level, root.handlers[:]
+    try:
+        yield
+    finally:
+        logging.disable(disable)
+        root.setLevel(level)
+        root.handlers[:] = handlers
+
+
 class OutputSuppressionContext:
     """A context manager that suppresses stdout and stderr.
 
